@@ -77,6 +77,20 @@ func drawTargetedKind5(t *rapid.T, cfg *gen.StoreCfg, present []*mocrelay.Event)
 		}
 		e.Tags = append(e.Tags, dup)
 	}
+	switch rapid.IntRange(0, 15).Draw(t, "k5shape") {
+	case 0:
+		// the very same tag twice
+		e.Tags = append(e.Tags, append(mocrelay.Tag{}, tag...))
+	case 1:
+		// a long request: the real target behind 32-60 other (unknown) ones
+		n := rapid.IntRange(32, 60).Draw(t, "k5pad")
+		padded := make([]mocrelay.Tag, 0, n+len(e.Tags))
+		for i := 0; i < n; i++ {
+			padded = append(padded, mocrelay.Tag{"e", gen.FakeID(2000 + i)})
+		}
+		pos := rapid.IntRange(0, n).Draw(t, "k5padpos")
+		e.Tags = append(append(append([]mocrelay.Tag{}, padded[:pos]...), e.Tags...), padded[pos:]...)
+	}
 	if rapid.IntRange(0, 3).Draw(t, "k5more") == 0 && len(w.Events) > 0 {
 		o := rapid.SampledFrom(w.Events).Draw(t, "k5other")
 		e.Tags = append(e.Tags, mocrelay.Tag{"e", o.ID})
@@ -87,14 +101,16 @@ func drawTargetedKind5(t *rapid.T, cfg *gen.StoreCfg, present []*mocrelay.Event)
 	return e
 }
 
+// storeParams selects the shape of one store history.
+type storeParams struct {
+	capacity   int
+	steps      int
+	cfg        *gen.StoreCfg
+	queryEvery int // C03 queries after every k-th step (1 = every step)
+}
+
 func TestStoreC03C04C05(t *testing.T) {
-	c03 := ev.For("C03").SetRule(c03Rule)
-	c04 := ev.For("C04").SetRule(c04Rule)
-	c05 := ev.For("C05").SetRule(c05Rule)
-	for _, c := range []*ev.Collector{c03, c04, c05} {
-		c.Assume("events are structurally valid and same id <=> same event (ids are SHA-256 of the canonical form), as the admission gate guarantees")
-		c.Assume("equal-timestamp versions may resolve either way; address references to replaceable events and d-less addressable events are admitted either way (statement silent)")
-	}
+	c03, c04, c05 := storeCollectors()
 	maxSteps := 40
 	if hx.Thorough() {
 		maxSteps = 120
@@ -110,6 +126,56 @@ func TestStoreC03C04C05(t *testing.T) {
 			steps = rapid.IntRange(capacity/2, capacity+40).Draw(t, "bigsteps")
 			cfg.TsSpan = int64(capacity / 3)
 		}
+		runStoreCase(t, c03, c04, c05, storeParams{capacity: capacity, steps: steps, cfg: cfg, queryEvery: 1})
+	})
+}
+
+// TestStoreSoak runs the same machine at scale: long histories on tiny stores (hundreds of
+// evictions, deletion requests coming and going) and stores of more than 1024 events.
+func TestStoreSoak(t *testing.T) {
+	c03, c04, c05 := storeCollectors()
+	rapid.Check(t, func(t *rapid.T) {
+		world := &gen.World{Authors: gen.Pubkeys(3)}
+		cfg := &gen.StoreCfg{World: world, TsBase: 1000}
+		p := storeParams{cfg: cfg}
+		switch rapid.SampledFrom([]string{"long-small", "long-small", "long-deletions", "large"}).Draw(t, "shape") {
+		case "long-small":
+			p.capacity = rapid.IntRange(2, 9).Draw(t, "cap")
+			p.steps = rapid.IntRange(600, 1500).Draw(t, "steps")
+			cfg.TsSpan = 4000
+			p.queryEvery = 25
+		case "long-deletions":
+			p.capacity = rapid.IntRange(3, 6).Draw(t, "cap")
+			p.steps = rapid.IntRange(900, 1800).Draw(t, "steps")
+			cfg.TsSpan = 6000
+			cfg.WeightKind5 = 14
+			p.queryEvery = 50
+		default:
+			p.capacity = rapid.SampledFrom([]int{1025, 1100, 1500, 2050}).Draw(t, "cap")
+			p.steps = p.capacity + rapid.IntRange(20, 200).Draw(t, "extra")
+			cfg.TsSpan = int64(p.capacity) * 4
+			cfg.RegularWeight = 40
+			p.queryEvery = 200
+		}
+		c04.Label("soak:" + fmt.Sprint(p.capacity >= 1000))
+		runStoreCase(t, c03, c04, c05, p)
+	})
+}
+
+func storeCollectors() (c03, c04, c05 *ev.Collector) {
+	c03 = ev.For("C03").SetRule(c03Rule)
+	c04 = ev.For("C04").SetRule(c04Rule)
+	c05 = ev.For("C05").SetRule(c05Rule)
+	for _, c := range []*ev.Collector{c03, c04, c05} {
+		c.Assume("events are structurally valid and same id <=> same event (ids are SHA-256 of the canonical form), as the admission gate guarantees")
+		c.Assume("equal-timestamp versions may resolve either way; address references to replaceable events and d-less addressable events are admitted either way (statement silent)")
+	}
+	return
+}
+
+func runStoreCase(t *rapid.T, c03, c04, c05 *ev.Collector, p storeParams) {
+	capacity, steps, cfg, world, queryEvery := p.capacity, p.steps, p.cfg, p.cfg.World, p.queryEvery
+	{
 		cache := mocrelay.NewEventCache(capacity)
 		var s []*mocrelay.Event
 		var history []*mocrelay.Event
@@ -250,7 +316,7 @@ func TestStoreC03C04C05(t *testing.T) {
 			s = s2
 
 			// C03 queries
-			if focusOn("C03") {
+			if focusOn("C03") && (i%queryEvery == 0 || i == steps-1) {
 				pool := gen.PoolFromEvents(world.Events, world.Authors)
 				pool.AllowEmptyTagsMap = true
 				pool.MaxLimit = int64(min(len(s)+1, 6))
@@ -295,7 +361,7 @@ func TestStoreC03C04C05(t *testing.T) {
 		if focusOn("C05") {
 			c05.Case(sawDeletionHit, key, caseJSON)
 		}
-	})
+	}
 }
 
 // refersTo: k (kind 5) names x by id or address, regardless of authorship.
